@@ -314,10 +314,20 @@ package lib
 //@   modifies now()
 
 // C08 "forgotten entirely": removing an index removes its timeout record (and the registration, and an emptied set).
+// C19 "registration expiry never panics": representation invariant of the registry - no nil expiry record, no nil
+// tracked registration, and every tracked registration names its source (ValidateRegistration admits nothing else;
+// the expiry record prints it)
+//@ define regsWF(r *RegisteredDecoys) bool = (forall k string :: k in r.decoysTimeouts ==> r.decoysTimeouts[k] != nil) && (forall p string, id string :: p in r.decoys && id in r.decoys[p] ==> r.decoys[p][id] != nil && r.decoys[p][id].RegistrationSource != nil)
 //@ func (r *RegisteredDecoys) removeRegistration(index string) *regExpireLogMsg
 // C17 "expiry records omit the registrant address"
 //@   neverreads @C17: DecoyRegistration.registrationAddr
 //@   requires r != nil && !held(&r.m) && rheld(&r.m) == 0
+// (the index was listed by the sweep that calls this - one sweeper, so it is still there)
+//@   requires @SAFETY: regsWF(r) && index in r.decoysTimeouts
+//@   ensures @C19: (forall k string :: k in r.decoysTimeouts ==> r.decoysTimeouts[k] != nil)
+// (removal only deletes entries, so the second half of regsWF is preserved as well - not stated: the nested-map
+// quantifier is beyond the solver's instantiation)
+//@   checks safety
 //@   ensures @C08: result != nil ==> !(index in r.decoysTimeouts)
 // "forgotten entirely": if the index names a tracked registration, that registration is gone afterwards
 //@   ensures @C08 @C02: old(index in r.decoysTimeouts) && old(r.decoysTimeouts[index].identifier in r.decoys[r.decoysTimeouts[index].decoy]) ==> !(index in r.decoysTimeouts) && !(old(r.decoysTimeouts[index].identifier) in r.decoys[old(r.decoysTimeouts[index].decoy)])
